@@ -184,8 +184,6 @@ func main() {
 		fmt.Fprintln(os.Stderr, err)
 		os.Exit(2)
 	}
-	empty := filepath.Join(work, "cwd")
-	os.MkdirAll(empty, 0o755)
 	var cases []*BuildCase
 	keys := []string{}
 	for pi, p := range progs {
@@ -202,7 +200,8 @@ func main() {
 			if opts != "" {
 				g += "," + opts
 			}
-			exit, output := gobuild.RunThriftgo(*thriftgo, empty, []string{"-r", "-g", g, "-o", outdir, "-i", src, filepath.Join(src, p.Main)}, 60*time.Second)
+			// cwd = program root (it holds only the .thrift files): includes are looked up relative to the cwd first
+			exit, output := gobuild.RunThriftgo(*thriftgo, src, []string{"-r", "-g", g, "-o", outdir, p.Main}, 60*time.Second)
 			bc := &BuildCase{Kind: "build", Prog: p, Backend: be, Exit: exit}
 			if exit != 0 {
 				bc.Output = output
